@@ -999,7 +999,100 @@ def run(ctx, model=True):
             res.samples.append({"case": cases[i], "history": opss[i], "impl": obss[i], "model": json.loads(replies[i])})
     else:
         res.samples.append({"case": cases[-1], "history": opss[-1], "impl": obss[-1]})
+    res.count("impl-only-probe:failed-close", 1)
+    for sig, what, case in failed_close_probe():
+        res.violations.append(C.Violation(sig, "implementation-only probe: " + what, case))
     return res
+
+
+def failed_close_probe():
+    """Implementation-only probe (the tracing model has no failing close_run): a run with a monitored signal whose clear_sub
+    fails ONCE; the plan's close_run therefore fails before any RunStop exists, the plan catches the error and closes again
+    with exit_status 'fail'.  The run's span is ended exactly once, when the run is really closed, with that status; a second
+    run open under another key keeps its own span and status."""
+    from bluesky import RunEngine
+    from bluesky.utils import Msg
+
+    FT.verify_installed()
+    logging.getLogger("bluesky").setLevel(logging.CRITICAL + 1)
+    bad = []
+    for two_runs in (False, True):
+        REC = FT.REC
+        REC.reset()
+
+        class Sig:
+            parent = None
+            name = "sig"
+
+            def __init__(self):
+                self.subs, self.fail = [], True
+
+            def subscribe(self, cb, **kw):
+                self.subs.append(cb)
+
+            def clear_sub(self, cb):
+                if self.fail:
+                    self.fail = False
+                    raise OSError("clear_sub failed once")
+                self.subs = [c for c in self.subs if c != cb]
+
+            def read(self):
+                return {"sig": {"value": 1, "timestamp": 0.0}}
+
+            def describe(self):
+                return {"sig": {"source": "sim", "dtype": "number", "shape": []}}
+
+            def read_configuration(self):
+                return {}
+
+            def describe_configuration(self):
+                return {}
+
+        sig = Sig()
+        buf = io.StringIO()
+        with contextlib.redirect_stdout(buf), contextlib.redirect_stderr(buf):
+            RE = RunEngine({}, loop=_loop(), context_managers=[])
+            stops = {}
+            starts = []
+            RE.subscribe(lambda n, d: starts.append(d["uid"]) if n == "start" else (stops.__setitem__(d["run_start"], d["exit_status"]) if n == "stop" else None))
+
+            def plan():
+                if two_runs:
+                    yield Msg("open_run", run="outer")
+                yield Msg("open_run", run="inner")
+                yield Msg("monitor", sig, run="inner", name="sig_monitor")
+                try:
+                    yield Msg("close_run", run="inner", exit_status="success", reason="")
+                except OSError:
+                    yield Msg("close_run", run="inner", exit_status="fail", reason="first close failed")
+                if two_runs:
+                    yield Msg("close_run", run="outer", exit_status="success", reason="")
+
+            try:
+                RE(plan())
+                out = "returned"
+            except BaseException as e:  # noqa: BLE001
+                out = type(e).__name__
+        ends = [e for e in REC.log if e[0] == "span.end" and str(e[2]).endswith(" run")]
+        status = {}
+        for e in REC.log:
+            if e[0] == "span.set_attribute" and e[3] == "exit_status" and str(e[2]).endswith(" run"):
+                status.setdefault(e[1], []).append(e[4])
+        case = {"probe": "failed-close", "two_runs": two_runs}
+        want = ["success", "fail"] if two_runs else ["fail"]     # spans in start order: outer first
+        got = [status.get(k, [None])[-1] for k in sorted(status)]
+        n_spans = len([e for e in REC.log if e[0] == "span.start" and str(e[2]).endswith(" run")])
+        if out != "returned" or sorted(stops.values()) != sorted(want):
+            bad.append(("failed-close:scenario-did-not-run", f"{case}: {out}, RunStops {stops}", case))
+            continue
+        per_span_ends = {}
+        for e in ends:
+            per_span_ends[e[1]] = per_span_ends.get(e[1], 0) + 1
+        if n_spans != len(want) or any(v != 1 for v in per_span_ends.values()) or len(per_span_ends) != len(want):
+            bad.append(("failed-close:span-not-ended-exactly-once", f"{'two runs' if two_runs else 'one run'}, the first close_run failed and was retried: {n_spans} run spans, ends per span {per_span_ends}", case))
+        elif got != want or any(len(v) != 1 for v in status.values()):
+            bad.append(("failed-close:span-status-differs-from-RunStop", f"{'two runs (outer, inner)' if two_runs else 'one run'}: RunStop statuses {want}, span statuses {[status[k] for k in sorted(status)]}", case))
+    return bad
 
 
 def run_impl_only(ctx):
@@ -1007,6 +1100,11 @@ def run_impl_only(ctx):
 
 
 def replay(ctx, data):
+    if (data.get("case") or {}).get("probe") == "failed-close":
+        res = C.Result()
+        for sig, what, case in failed_close_probe():
+            res.violations.append(C.Violation(sig, what, case))
+        return res
     res = C.Result()
     case = data.get("case")
     if not case:
